@@ -1,1 +1,78 @@
 import Iauthd.Addr.Proofs
+/-
+  C13 — netmask parsing and matching are exact.
+
+  "For every address, mask address and prefix length, the mask test succeeds exactly when the
+   leading prefix-length bits are equal.  Every CIDR (a.b.c.d/n, x:y::/n) or wildcard (a.b.*,
+   x:y:*, *) text yields the documented prefix length and network bits, every other string is
+   rejected or parsed without touching memory outside its arguments, and wherever both accept
+   a plain address string the parser agrees with the standard library parser."
+
+  Model: `Iauthd.Addr.checkMask`, `ptonWith fx` (Model.lean): `fx = false` (`pton`) is the parser
+  as it is in the repository, `fx = true` (`ptonFixed`) the parser after the candidate repair
+  fix_pton_cidr.diff of F26.  Every theorem below holds for both.  Spec: `prefixEq`, `docParse`, `refParse` (Spec.lean); the
+  judge evaluates `c13MaskCheck` / `c13PtonCheck` on the C code.
+-/
+namespace Iauthd.Properties
+open Iauthd Iauthd.Addr
+
+/-- **C13 (matching)**: for all addresses, masks and every length `n` (unbounded):
+    `irc_check_mask` succeeds exactly when the leading `min n 128` bits are equal. -/
+theorem C13_mask (a m : Addr) (n : Nat) :
+    checkMask a m n = true ↔ val128 a / 2 ^ (128 - min n 128) = val128 m / 2 ^ (128 - min n 128) :=
+  mask_spec a m n
+
+/-- the judge's predicate holds of the model's own answer -/
+theorem C13_mask_judge_on_model (a m : Addr) (n : Nat) : c13MaskCheck a m n (checkMask a m n) = none := by
+  simp [c13MaskCheck, mask_spec_bool]
+
+/-- **C13 (every string)**: for every input string and every flag combination the parser
+    returns without touching memory outside its arguments: no read past the terminating NUL,
+    no group index outside 0..7, `part_start` non-NULL when dereferenced, no loop overruns. -/
+theorem C13_safe (fx : Bool) (input : Bytes) (wantBits allowTrailing : Bool) :
+    (ptonWith fx input wantBits allowTrailing).isOk = true :=
+  pton_safe fx input wantBits allowTrailing
+
+/-- **C13 (agreement with the standard parser)** — *partial*: proved for every text the
+    daemon's printer produces (all 2^128 addresses); for arbitrary accepted strings the
+    agreement is checked differentially against glibc on every run (judge).
+    Full statement (not proved):
+      `∀ s r a, pton s false false = .ok r → r.ret = s.length → s ≠ [] → refParse s = some a → r.addr = a`.
+    Missing: a proof that the C state machine and the reference grammar agree on *all*
+    strings both accept (leading zeros, upper case, every placement of "::", dotted tails). -/
+theorem C13_agree_partial (fx : Bool) (a : Addr) :
+    ∃ r, ptonWith fx (ntop a 40).1 false false = .ok r ∧ r.ret = (ntop a 40).1.length ∧
+      refParse (ntop a 40).1 = some r.addr :=
+  ⟨_, ntop_pton fx a, rfl, ntop_ref a⟩
+
+/-- **C13 (documented netmask texts)** — *partial*: three of the documented forms are
+    theorems for all their instances: `*…`, `a.b.c.d/n` (n ≤ 32), `a.b.*`.
+    Not proved (judge only): `a.*`, `a.b.c.*`, partial quads `a.b/n`, the IPv6 forms
+    `x:y::/n` and `x:y:*`.  The IPv6 CIDR form is *false* of the pinned parser for texts
+    with seven groups followed by "::" (`pton_F26_cidr_rejected`); `ptonFixed_F26_cidr` shows
+    the same text accepted after fix_pton_cidr.diff. -/
+theorem C13_netmask_partial (fx : Bool) :
+    (∀ k wb, ptonWith fx (List.replicate (k + 1) 42) wb false = .ok ⟨k + 1, Addr.zero, setBits wb none 0, false⟩) ∧
+    (∀ o1 o2 o3 o4 n, o1 < 256 → o2 < 256 → o3 < 256 → o4 < 256 → n ≤ 32 →
+      ptonWith fx (quadText o1 o2 o3 o4 ++ 47 :: decOctet n) true false =
+        .ok ⟨(quadText o1 o2 o3 o4 ++ 47 :: decOctet n).length, mapped4 o1 o2 o3 o4, some (96 + n), false⟩) ∧
+    (∀ o1 o2, o1 < 256 → o2 < 256 →
+      ptonWith fx (decOctet o1 ++ 46 :: (decOctet o2 ++ [46, 42])) true false =
+        .ok ⟨(decOctet o1 ++ 46 :: (decOctet o2 ++ [46, 42])).length, mapped4 o1 o2 0 0, some 112, false⟩) :=
+  ⟨star fx, fun o1 o2 o3 o4 n h1 h2 h3 h4 hn => cidr4 fx o1 o2 o3 o4 n h1 h2 h3 h4 hn,
+   fun o1 o2 h1 h2 => wild4 fx o1 o2 h1 h2⟩
+
+/-! non-vacuity and sanity of the spec side -/
+
+/-- the texts of `C13_netmask_partial` are what they claim to be: `127.0.0.1/8`, `10.1.*` -/
+example : quadText 127 0 0 1 ++ 47 :: decOctet 8 = [49, 50, 55, 46, 48, 46, 48, 46, 49, 47, 56] := by decide
+example : decOctet 10 ++ 46 :: (decOctet 1 ++ [46, 42]) = [49, 48, 46, 49, 46, 42] := by decide
+/-- … and the spec's documented reading of them agrees with the theorems -/
+example : docParse (quadText 127 0 0 1 ++ 47 :: decOctet 8) = some (mapped4 127 0 0 1, 96 + 8) := by decide
+example : docParse (decOctet 10 ++ 46 :: (decOctet 1 ++ [46, 42])) = some (mapped4 10 1 0 0, 112) := by decide
+example : docParse [42, 42] = some (Addr.zero, 0) := by decide
+/-- the mask test can fail and can succeed -/
+example : checkMask (Addr.ofList [1, 2, 3, 4, 5, 6, 7, 8]) (Addr.ofList [1, 2, 3, 4, 5, 6, 7, 9]) 127 = true := by decide
+example : checkMask (Addr.ofList [1, 2, 3, 4, 5, 6, 7, 8]) (Addr.ofList [1, 2, 3, 4, 5, 6, 7, 9]) 128 = false := by decide
+
+end Iauthd.Properties
